@@ -152,8 +152,8 @@ where
 
     let mag = parse_digits_u128(digits, radix).ok_or_else(invalid)?;
     let val_i128: i128 = if neg {
-        let mag_i128: i128 = mag.try_into().map_err(|_| invalid())?;
-        mag_i128.checked_neg().ok_or_else(invalid)?
+        // Subtract from zero rather than negate: the magnitude of `i128::MIN` does not fit `i128`.
+        0i128.checked_sub_unsigned(mag).ok_or_else(invalid)?
     } else {
         mag.try_into().map_err(|_| invalid())?
     };
